@@ -398,6 +398,8 @@ def run(ctx, facts):
     e += _exit_setsketch(ctx, facts)
     ctx.floor("C04 loop exits", e, 4 if has2 else 3)
     _counter(ctx, facts)
+    from . import C13
+    C13.require_verified_reset(ctx, facts, [C13.FY], "RESETBEFORE")
     if has2:
         _resetbefore(ctx, facts, SMH2 + "sketch")
     _resetbefore(ctx, facts, SS + "sketch")
